@@ -33,7 +33,8 @@ func (d TaskDef) Equals(otherDef TaskDef) bool {
 		return false
 	}
 	for k, v := range d.Env {
-		if otherDef.Env[k] != v {
+		otherV, exists := otherDef.Env[k]
+		if !exists || otherV != v {
 			return false
 		}
 	}
@@ -121,7 +122,8 @@ func (d PipelineDef) Equals(otherDef PipelineDef) bool {
 		return false
 	}
 	for k, v := range d.Env {
-		if otherDef.Env[k] != v {
+		otherV, exists := otherDef.Env[k]
+		if !exists || otherV != v {
 			return false
 		}
 	}
